@@ -46,13 +46,17 @@ CLAIMED = {
           'closure lifting R4 (wiring not decided). Context pairs with equal key sets and mixed unequal/incomparable entries are only partly decided.',
  },
  'C01': {
-  'text': 'Partial. Verus proves on the real bodies: FeelIterator::run enumerates exactly the cartesian product of its (non-empty) domains in odometer order - the k-th handler call has the position vector of '
-          'mixed-radix rank k and the loop exits after exactly the product of the domain sizes calls, for all isize range bounds, ascending and descending (ghost trace, inductive invariant); '
-          'add_range/add_list build well-formed states; the operator closures and/or/=/!=/</<=/>/>=/between/in-range equal the value tables of the standard (unit compare); '
-          'Scope::get_entry/search_deep resolve names innermost-first; filter, for / some / every bodies, context literals and function invocations leave the scope stack as they found it (so the rest of the expression sees the caller\'s bindings). BOUNDED: = / != / list contains over a 41-value alphabet. Known finding (replayed each run): an empty list domain beside a non-empty one still iterates.',
+  'text': 'Partial. Verus proves on the real bodies, for all operand values: FeelIterator::run enumerates exactly the cartesian product of its (non-empty) domains in odometer order (ghost trace, inductive invariant, '
+          'all isize range bounds, ascending and descending) and terminates; build_for registers the iteration contexts in the order they are written, each with the domain its expression denotes (unit forloop); '
+          'the per-round closures of for / some / every append the body value over the bound variables and partial, or fold it with or / and; the operator closures and/or/=/!=/</<=/>/>=/between/in-range equal the value '
+          'tables of the standard (unit compare); x in rhs for every kind of right operand, a list of tests as a left-to-right disjunction, a list in a list of lists by equality (unit member); a path is the entry of a context or null, '
+          'one result per item of a list of contexts, the named component of a temporal value (unit paths); + - * / ** and unary minus apply their operation to their operands in order per operand kind and are null otherwise (unit arith); '
+          'if takes the else branch for every condition that is not true; Scope::get_entry/search_deep resolve names innermost-first; function invocation binds parameters to coerced arguments in order / by name; filter, iteration bodies, '
+          'context literals and invocations leave the scope stack as found. BOUNDED: equality over a 41-value alphabet, 102 core expressions, invocation arities, 22 path-then-operator expressions. '
+          'Known findings (replayed each run): an empty list domain beside a non-empty one still iterates; the property name of a path is read greedily when it is not a bound name.',
   'design_ref': 'DESIGN.md section 5 (C01)',
-  'note': 'Trusted: Verus/Z3, vstd, stubs for FeelNumber and chrono; closure lifting R4 and RefCell erasure R8. Not decided: closure wiring (build_evaluator), arithmetic closures (pending), '
-          'function definition/invocation, filters, paths, for/some/every result assembly, determinism.',
+  'note': 'Trusted: Verus/Z3, vstd, stubs for FeelNumber, chrono and the temporal component getters; A-eval (the value of a sub-evaluator is a function of the evaluator and the stack); closure lifting R4 and RefCell erasure R8. '
+          'Not decided: closure wiring (build_evaluator / the parser mapping each construct to its builder), context literals and filters beyond scope balance, termination of eval_in_list, determinism.',
  },
  'C08': {
   'text': 'Partial. Verus proves on the real bodies, for all lists, strings and positions: sublist (2 and 3 arguments), substring (characters, 1-based, negative from the end), insert before, remove, reverse, '
@@ -87,7 +91,7 @@ CLAIMED = {
   'text': 'Partial. Verus proves on the real bodies of decision_table.rs, for all tables (any number of rules/outputs, any match pattern): a rule matches exactly when every input-entry evaluator yields true; '
           'the 12 hit-policy functions and their dispatch return what the policy prescribes over exactly the matching rules (UNIQUE, ANY, FIRST, PRIORITY, RULE ORDER, OUTPUT ORDER, COLLECT list/count/sum/min/max), '
           'the default on no match, contexts keyed by component names for compound outputs; the output-value priority comparator is the lexicographic rank order; and (unit compare) the unary tests '
-          '< <= > >= and not(...) used by input entries accept exactly the values they should; the marker of a text table and the hitPolicy / aggregation attributes of the XML form denote the policy and aggregator of DMN Table 39.',
+          '< <= > >= and not(...) used by input entries accept exactly the values they should, a comma-separated list of tests is the left-to-right disjunction of its items (unit member: build_in, eval_in_list); the marker of a text table and the hitPolicy / aggregation attributes of the XML form denote the policy and aggregator of DMN Table 39.',
   'design_ref': 'DESIGN.md section 5 (C03)',
   'note': 'Trusted: Verus/Z3; evaluators are opaque (dyn Fn); sort_by sorts by the (verified) comparator (assumed: result is a permutation); filter/collect and position stubs; FEEL aggregates uninterpreted. '
           'Not decided: parsing of the table from XML/text, interval/list unary tests inside input entries beyond those under contract.',
